@@ -313,7 +313,7 @@ class World(object):
         return dict(
             pc={t: self.sched.th[t].at for t in self.threads}, lid=dict(self.lids), nid=self.device._local_id,
             tlock=self.tlock.holder or 'free',
-            store=sorted([a0, a1, [c.decode() for c, _ in getattr(q, '_queue', q)]] for a1, m in st.items() for a0, q in m.items()),
+            store=sorted([a0, a1, [c.decode() for c, _ in env.queue_items(q)]] for a1, m in st.items() for a0, q in m.items()),
             live=sorted([a0, a1] for (a0, a1) in getattr(self.io._packet_store, '_live', ())),
             d2h=[[f['pk']['cmd'], wire.unlimbs(f['pk']['a0']), wire.unlimbs(f['pk']['a1'])] for f in self.dev.wire],
             h2d=[[h['cmd'], h['a0'], h['a1']] for h in self.core.h2d_q],
